@@ -1,7 +1,8 @@
 (* RaceAntsProofs.v -- the labelled ants step model (models/RaceAnts.v): the pre-fix shape (commit d4c0a4b
    reverted: the inner callback stores result/err itself) is refuted on a concrete schedule, both as a
    late write (C07) and as a happens-before race (C18); the same schedule on the fixed code. *)
-From Got Require Import Base ListAux Race RaceProofs RaceHB RaceHBProofs AntsSteps AntsStepsProofs RaceAnts.
+From Got Require Import Base ListAux Race RaceProofs RaceHB RaceHBProofs RaceMonLemmas RaceCacheMon.
+From Got Require Import AntsSteps AntsStepsProofs RaceAnts RaceAntsInv RaceAntsCases.
 Local Open Scope nat_scope.
 
 Definition ra_lw_final (md : ast_mode) : ast_state := ast_run md 1 (ast_init 1 ra_lw_progs) ra_lw_sched.
@@ -37,4 +38,70 @@ Lemma ra_fixed_lw_conflicts :
   exists i j, hb_conflict (ra_trace AstFixed 1 ra_lw_progs ra_lw_sched) i j.
 Proof.
   exists 0, 6. exists 0, (RWrite 0), 1, (RWrite 0), 0. vm_compute. repeat split; auto; discriminate.
+Qed.
+
+(* ------------------------------------------------------------------ the general theorem (fixed code)
+   Every labelled run of the fixed step machine is race free: the monitor invariant ra_minv (RaceAntsInv.v) holds
+   initially and is re-established by every step (ra_step_kind: each step is of one of nine kinds w.r.t. the
+   ownership of the task it touches; ra_minv_step: each kind re-establishes the facts). *)
+Definition ra_nostoreo (s : ast_state) : Prop := forall i pc, ast_pc_of s i = Some pc -> ast_is_storeo pc = false.
+
+Lemma ra_run_silent N n sched : forall s m,
+  ast_inv s -> ra_nostoreo s -> ra_minv s m ->
+  rc_raced (fold_left (fun m p => rc_step N m (fst p) (snd p)) (ra_trace_from AstFixed n s sched) m) = false.
+Proof.
+  induction sched as [|[tid h] r IH]; intros s m Inv Hns Hm; cbn [ra_trace_from fold_left].
+  - apply (rmi_nr _ _ Hm).
+  - rewrite rm_run_map. apply IH.
+    + unfold ast_next. cbn [fst snd]. apply ast_step_inv. exact Inv.
+    + unfold ast_next, ra_nostoreo. cbn [fst snd]. apply ast_step_no_storeo. exact Hns.
+    + apply ra_minv_step with (s := s); [|exact Hm]. apply ra_step_kind; assumption.
+Qed.
+
+Lemma ra_init_nostoreo n progs : ra_nostoreo (ast_init n progs).
+Proof. intros i pc H1. destruct (ast_init_pcs _ _ _ _ H1) as [->|[->| ->]]; reflexivity. Qed.
+
+Theorem ra_monitor_silent n progs sched :
+  rc_raced (rc_run (ra_nthreads n progs) (ra_trace AstFixed n progs sched)) = false.
+Proof.
+  unfold rc_run, ra_trace. apply ra_run_silent; [apply ast_init_inv|apply ra_init_nostoreo|apply ra_minv_init].
+Qed.
+
+Lemma ra_next_thr_length md n s it : length (ast_thr (ast_next md n s it)) = length (ast_thr s).
+Proof.
+  destruct it as [tid hint]. unfold ast_next, ast_step. cbn [fst snd].
+  destruct (nth_error (ast_thr s) tid) as [th|] eqn:Eth; [|reflexivity].
+  destruct th as [pc prog hs]. unfold ast_step_pc. cbn [ath_pc ath_prog ath_handles].
+  destruct pc;
+    repeat first [progress (unfold ast_wait_ctx; ast_cbn) | match goal with
+    | |- context [match ?x with _ => _ end] => destruct x eqn:?
+    end]; rewrite ?ast_upd_length; reflexivity.
+Qed.
+
+Lemma ra_trace_wf md n sched : forall s, hb_wf (length (ast_thr s)) (ra_trace_from md n s sched).
+Proof.
+  induction sched as [|[tid h] r IH]; intros s; cbn [ra_trace_from]; [constructor|].
+  apply rm_wf_app.
+  - unfold ra_events. destruct (nth_error (ast_thr s) tid) as [th|] eqn:E; [|constructor].
+    apply rm_wf_map. apply nth_error_Some. congruence.
+  - rewrite <- (ra_next_thr_length md n s (tid, h)). apply IH.
+Qed.
+
+Lemma ra_init_nthreads n progs : length (ast_thr (ast_init n progs)) = ra_nthreads n progs.
+Proof. cbn [ast_init ast_thr]. rewrite !app_length, map_length, !repeat_length. unfold ra_nthreads. lia. Qed.
+
+Theorem ra_race_free n progs sched : ~ hb_race (ra_trace AstFixed n progs sched).
+Proof.
+  apply (hbp_agree (ra_nthreads n progs)); [|apply ra_monitor_silent].
+  rewrite <- ra_init_nthreads. apply ra_trace_wf.
+Qed.
+
+(* every conflicting pair of the labelled run is ordered by happens-before *)
+Theorem ra_conflicts_ordered n progs sched i j :
+  i < j -> j < length (ra_trace AstFixed n progs sched) ->
+  hb_conflict (ra_trace AstFixed n progs sched) i j ->
+  hb_hb (ra_trace AstFixed n progs sched) i j.
+Proof.
+  apply (hbp_norace_ordered (ra_nthreads n progs)); [|apply ra_monitor_silent].
+  rewrite <- ra_init_nthreads. apply ra_trace_wf.
 Qed.
